@@ -17,6 +17,8 @@ CONSTANTS
   RecordMode = "component"
   PoolSet = {FALSE}
   AssembleMode = "index"
+  LateSet = {FALSE}
+  LookupMode = "live"
   MaxFaults = 3
 INVARIANT RoundTrip
 INVARIANT ErrorsPersisted
